@@ -34,9 +34,9 @@ func (c07) Meta() Meta {
 
 func c07Params(tier string) (nGenQ, nGenT, replays int) {
 	if tier == "thorough" {
-		return 40, 400, 12
+		return 120, 1500, 12
 	}
-	return 40, 400, 3
+	return 120, 1500, 3
 }
 
 func (p c07) NumUnits(tier string, seed int64) int {
